@@ -20,6 +20,8 @@ pub enum Op {
     Demote(u8),
     /// `PromotionBehavior::demote_peer` called directly (public API; the DemotePeer command only re-tags the peer)
     DemoteDirect(u8),
+    /// `PromotionBehavior::ban_peer` called directly (public API)
+    BanDirect(u8),
     Housekeeping,
     StartSync,
     ContinueSync(u8),
@@ -180,6 +182,18 @@ impl World {
                         true
                     }
                     _ => false,
+                }
+            }
+            Op::BanDirect(i) => {
+                let n = self.peer(*i);
+                let p = pid(n);
+                match self.b.peers.get_mut(&p) {
+                    Some(st) => {
+                        ban_target = Some(n);
+                        self.b.promotion.ban_peer(&p, st);
+                        true
+                    }
+                    None => false,
                 }
             }
             Op::Housekeeping => {
@@ -477,7 +491,18 @@ impl World {
         if pr.hot_peers.len() > self.cfg.max_hot {
             return Err(Violation { sig: "c27:limit:hot".into(), msg: format!("after {after:?}: {} hot peers > max_hot_peers {}", pr.hot_peers.len(), self.cfg.max_hot) });
         }
+        // the public observers agree with the sets
+        for i in 1..=self.cfg.peers {
+            let p = pid(i);
+            let tracked = pr.cold_peers.contains(&p) || pr.warm_peers.contains(&p) || pr.hot_peers.contains(&p);
+            if pr.is_tracked(&p) != tracked {
+                return Err(Violation { sig: "c27:is_tracked-disagrees-with-sets".into(), msg: format!("after {after:?}: is_tracked({p}) = {} but membership in cold/warm/hot is {tracked}", pr.is_tracked(&p)) });
+            }
+        }
         let total = pr.cold_peers.len() + pr.warm_peers.len() + pr.hot_peers.len();
+        if total <= self.cfg.max_peers && pr.peer_deficit() != self.cfg.max_peers - total {
+            return Err(Violation { sig: "c27:peer_deficit-wrong".into(), msg: format!("after {after:?}: peer_deficit() = {} with {total} tracked peers of {}", pr.peer_deficit(), self.cfg.max_peers) });
+        }
         if total > self.cfg.max_peers {
             return Err(Violation { sig: "c27:limit:total".into(), msg: format!("after {after:?}: {total} tracked peers > max_peers {}", self.cfg.max_peers) });
         }
